@@ -47,6 +47,7 @@ def showVal : Val N → String
   | .num x => "n" ++ hex16 x
   | .str s => "s" ++ Driver.hexOfUnits s
   | .nodes l => "l" ++ showIds l
+  | .rtf s => "r" ++ Driver.hexOfUnits s
 
 def isNaN (x : Nat) : Bool := (x >>> 52) &&& 0x7ff == 0x7ff && (x &&& 0xfffffffffffff) != 0
 def isZero (x : Nat) : Bool := (x &&& 0x7fffffffffffffff) == 0
@@ -104,6 +105,7 @@ def parseVal (t : String) : Option (Val N) :=
   | 'n' :: r => (Driver.parseHex (String.ofList r)).map .num
   | 's' :: r => (Driver.unitsOfHex (String.ofList r)).map .str
   | 'l' :: r => (parseIds (String.ofList r)).map .nodes
+  | 'r' :: r => (Driver.unitsOfHex (String.ofList r)).map .rtf
   | _ => none
 
 def k1Of : String → Option K1
@@ -174,6 +176,7 @@ def showRes : Res N → String
     | .num x => "n:" ++ hex16 x
     | .str s => "s:" ++ Driver.hexOfUnits s
     | .nodes l => "l:" ++ showIds l
+    | .rtf s => "r:" ++ Driver.hexOfUnits s
   | .bool b => if b then "1" else "0"
   | .num x => hex16 x
   | .str s => Driver.hexOfUnits s
